@@ -61,9 +61,9 @@ Proof.
     cbn [app]. repeat (first [exact B11 | constructor; [reflexivity|]]). }
   (* the table *)
   pose proof (rw_rd_at_shift file xoff [120; 114; 101; 102; 10] _ Hat) as Hat5. change (rd_len [120; 114; 101; 102; 10]) with 5 in Hat5.
-  destruct (rd_table_section_model_lemma file (xoff + 5) offs ttext max_id st0 Hat5 Hn Hoffs Btt eq_refl) as (tpos & Htab).
+  destruct (rd_table_section_model_step file (xoff + 5) offs ttext max_id st0 Hat5 Hn Hoffs Btt eq_refl) as (tpos & Htab).
   (* the trailer *)
-  destruct (rd_trailer_parses_lemma objs ren d' id1 id2 F rd_tk tpos Hren W ND Hi Hr Ho Hl BF eq_refl ltac:(discriminate))
+  destruct (rd_trailer_parses_step objs ren d' id1 id2 F rd_tk tpos Hren W ND Hi Hr Ho Hl BF eq_refl ltac:(discriminate))
     as (o' & P1 & P2 & P3 & P4).
   fold ttext in P1, P3, P4. set (r := parse_object false false rd_tk ttext tpos) in *.
   assert (Hsy : rd_sy objs ren o = SyDict (rw_sy_entries objs ren d' ++ [(rw_k_ID, SyArr [SyStr id1; SyStr id2])])).
